@@ -99,6 +99,7 @@ type directive struct {
 	Tag  string `json:"tag,omitempty"`
 	Msg  string `json:"msg,omitempty"`
 	Arg  string `json:"arg,omitempty"`  // target or action text
+	Arg2 string `json:"arg2,omitempty"` // a second target for the same selection (two directives / two ctl actions of one rule)
 	Pos  string `json:"pos,omitempty"`  // ctl placement: p1 | before | after
 	Ctl  bool   `json:"ctl,omitempty"`
 	// SkipBase: rule 1 of the base set carries skip:2, so that a removed rule inside the skip window is observable
@@ -157,7 +158,11 @@ func (d directive) text() string {
 	case "removeByMsg":
 		return "SecRuleRemoveByMsg " + d.Msg + "\n"
 	case "updateTargetById":
-		return fmt.Sprintf("SecRuleUpdateTargetById %s \"%s\"\n", d.IDs, d.Arg)
+		s := fmt.Sprintf("SecRuleUpdateTargetById %s \"%s\"\n", d.IDs, d.Arg)
+		if d.Arg2 != "" {
+			s += fmt.Sprintf("SecRuleUpdateTargetById %s \"%s\"\n", d.IDs, d.Arg2)
+		}
+		return s
 	case "updateTargetByTag":
 		return fmt.Sprintf("SecRuleUpdateTargetByTag %s \"%s\"\n", d.Tag, d.Arg)
 	case "updateActionById":
@@ -181,6 +186,9 @@ func (d directive) rewrite(rules []ruleD, from int) []ruleD {
 		case "updateTargetById", "updateTargetByTag", "removeTarget":
 			nr := r
 			nr.Targets = append(append([]string{}, r.Targets...), d.Arg)
+			if d.Arg2 != "" {
+				nr.Targets = append(nr.Targets, d.Arg2)
+			}
 			out = append(out, nr)
 		case "updateActionById":
 			nr := r
@@ -227,6 +235,10 @@ func directives(thorough bool) []directive {
 	for _, msg := range []string{"m1", "m2"} {
 		ds = append(ds, directive{Kind: "removeByMsg", Msg: msg})
 	}
+	for _, ids := range []string{"3", "2-3"} {
+		ds = append(ds, directive{Kind: "updateTargetById", IDs: ids, Arg: "!ARGS:/^a/", Arg2: "!ARGS:/^b/"},
+			directive{Kind: "updateTargetById", IDs: ids, Arg: "!ARGS:/^b/", Arg2: "!ARGS"})
+	}
 	// run-time counterparts
 	for _, pos := range []string{"p1", "before", "after"} {
 		if pos != "after" {
@@ -242,6 +254,13 @@ func directives(thorough bool) []directive {
 				ds = append(ds, directive{Ctl: true, Kind: "removeTarget", IDs: ids, Arg: tgt, Pos: pos})
 			}
 		}
+		// two removals for one rule and one collection: both regex keys, a regex key and the whole collection, two plain keys
+		for _, ids := range []string{"3", "2-3"} {
+			for _, pair := range [][2]string{{"ARGS:/^a/", "ARGS:/^b/"}, {"ARGS:/^b/", "ARGS"}, {"ARGS:a", "ARGS:b"}, {"ARGS:/^a/", "ARGS:b"}} {
+				ds = append(ds, directive{Ctl: true, Kind: "removeTarget", IDs: ids, Arg: pair[0], Arg2: pair[1], Pos: pos})
+			}
+		}
+		ds = append(ds, directive{Ctl: true, Kind: "removeTarget", Tag: "t2", Arg: "ARGS:/^a/", Arg2: "ARGS:/^b/", Pos: pos})
 		// rule 5 reads three collection/key pairs: the removal names exactly one of them
 		for _, tgt := range []string{"ARGS_GET:c", "REQUEST_COOKIES:c", "REQUEST_COOKIES:a", "ARGS_GET", "REQUEST_COOKIES"} {
 			ds = append(ds, directive{Ctl: true, Kind: "removeTarget", IDs: "5", Arg: tgt, Pos: pos})
@@ -271,7 +290,11 @@ func (d directive) ctlText() string {
 	case "removeById", "removeByTag", "removeByMsg":
 		return fmt.Sprintf("ctl:ruleRemove%s=%s", by, sel)
 	case "removeTarget":
-		return fmt.Sprintf("ctl:ruleRemoveTarget%s=%s;%s", by, sel, d.Arg)
+		s := fmt.Sprintf("ctl:ruleRemoveTarget%s=%s;%s", by, sel, d.Arg)
+		if d.Arg2 != "" {
+			s += fmt.Sprintf(",ctl:ruleRemoveTarget%s=%s;%s", by, sel, d.Arg2)
+		}
+		return s
 	}
 	return ""
 }
@@ -308,6 +331,9 @@ func (d directive) ctlConfigs() (string, string) {
 	dd := d
 	if d.Kind == "removeTarget" {
 		dd.Arg = "!" + d.Arg
+		if d.Arg2 != "" {
+			dd.Arg2 = "!" + d.Arg2
+		}
 	}
 	rew := dd.rewrite(rules, idx)
 	// the rewritten configuration keeps a no-op rule 90 at the same place so that ids line up
@@ -429,6 +455,9 @@ func (d directive) sig() string {
 		if strings.Contains(d.Arg, "/") {
 			arg = ":regex-key"
 		}
+	}
+	if d.Arg2 != "" {
+		arg += ":two-targets"
 	}
 	return s + ":" + form + arg
 }
